@@ -453,13 +453,16 @@ static void rays_for(const ACfg &cfg, int per, int field, bool thorough, long se
     return;
   }
   // start lattice: faces and centres of the unrefined cells, in the thorough
-  // tier the half-cell lattice of the first refined level
+  // tier also an off-centre point per cell
   std::vector< double > L[3];
   for (int d = 0; d < 3; ++d) {
-    const int sub = thorough ? 4 : 2;
-    const long m = (long)cfg.n[d] * sub;
-    for (long i = 0; i < m; ++i)
-      L[d].push_back(cfg.A[d] + (double)i * (cfg.S[d] / (double)m));
+    const double side = cfg.S[d] / cfg.n[d];
+    for (long i = 0; i < cfg.n[d]; ++i) {
+      L[d].push_back(cfg.A[d] + side * i);
+      L[d].push_back(cfg.A[d] + side * i + 0.5 * side);
+      if (thorough)
+        L[d].push_back(cfg.A[d] + side * i + 0.3125 * side);
+    }
   }
   std::vector< std::array< double, 3 > > dirs;
   for (auto &v : integer_directions()) {
